@@ -67,6 +67,12 @@ def run_case(case):
         hooks = [C.rec_hook('h_chal', chal_types, d + '/hooks.log', plan=d + '/hookplan.json'),
                  C.rec_hook('h_chal2', types2, d + '/hooks.log', plan=d + '/hookplan.json'),
                  C.rec_hook('h_other', [t for t in C.ALL_HOOK_TYPES if t not in chal_types], d + '/hooks.log')]
+        names_ = ['h_chal', 'h_chal2', 'h_other']
+        if case.get('nopipe'):
+            with open(d + '/big-input.txt', 'w') as f:
+                f.write(('update add _acme-challenge.example.org. 60 TXT "x"\n' * 6000))
+            hooks.append({'name': 'h_nopipe', 'type': chal_types, 'cmd': '/bin/sh', 'args': ['-c', 'exit 3'], 'stdin': d + '/big-input.txt'})
+            names_ = ['h_chal', 'h_nopipe', 'h_chal2', 'h_other']
         idl = []
         for k, (e, _, _) in enumerate(idents):
             e = dict(e)
@@ -74,7 +80,7 @@ def run_case(case):
                 # challenge names are accepted in any letter case
                 e['challenge'] = e['challenge'].upper() if k % 4 == 0 else e['challenge'].title()
             idl.append(e)
-        return S.std_config(d, ca, [{'name': 'c0', 'identifiers': idl, 'hooks': ['h_chal', 'h_chal2', 'h_other']}],
+        return S.std_config(d, ca, [{'name': 'c0', 'identifiers': idl, 'hooks': names_}],
                             accounts=[{'name': 'acc1', 'key_type': key_now[0], 'hooks': ['h_other']}], extra_hooks=hooks)
     key_now = [case['acc_key']]
 
@@ -184,6 +190,9 @@ def run_case(case):
             if not ch or r.get('tx', 0) > 0:
                 continue
             res['posts_checked'] += 1
+            if case.get('nopipe'):
+                pb.append(('post-after-failed-hook', 'challenge %s of %s declared ready although the hook h_nopipe (exits 3 without reading the file it is fed) is configured for it' % (ch['type'], ch['identifier'])))
+                break
             hs = [h for h in hooks_by_authz.get(ch['authz'], []) if h['kv'].get('challenge') == ch['type']]
             a = authz.get(ch['authz'], {})
             cfg_name = ('*.' + ch['identifier']) if ch.get('wildcard') else ch['identifier']
@@ -200,6 +209,10 @@ def run_case(case):
             # every configured hook of that challenge type ran, in the configured order, up to the first one that failed
             names = [h['hook'] for h in sorted(hs, key=lambda h: h['t_start'])]
             want_names = ['h_chal', 'h_chal2']
+            # the challenge answered is one the CA offered under the configured type (not a neighbour in the list)
+            offered = [c_ for c_ in (a.get('challenges') or []) if c_['type'] == ch['type']]
+            if ch.get('token') and offered and ch['token'] not in [c_['token'] for c_ in offered]:
+                pb.append(('challenge-type', 'the challenge answered for %s has token %r, which the CA did not offer under type %s' % (ch['identifier'], ch['token'][:12], ch['type'])))
             if names[:2] != want_names and not [h for h in hs if h.get('exit') not in (0, None)]:
                 pb.append(('hook-set', 'challenge %s of %s: hooks run %s, configured for that type: %s' % (ch['type'], ch['identifier'], names, want_names)))
             failed = [h for h in (before or hs) if h.get('exit') not in (0, None)]
@@ -273,6 +286,14 @@ def gen(tier, r):
         elif k == 9:
             e, (kind, v), ch = r.choice(idents)
             case['challenge_status_by_id'] = {v: 'processing'}
+        elif k == 6:
+            # challenge types this client does not know (dns-account-01, ...) listed among the known ones, before the configured one
+            e, (kind, v), ch = r.choice(idents)
+            others = [c for c in chal if c != ch]
+            case['types_by_id'] = {v: r.choice([['dns-account-01', ch], ['dns-account-01'] + others[:1] + [ch], [others[0], 'x-new-01', ch, 'dns-account-01'], ['device-attest-01', 'dns-account-01', ch] + others])}
+        elif k == 4 and i % 20 == 4:
+            # a challenge hook fed from a large file which gives up at once without reading it
+            case['nopipe'] = True
         case['mixed_hook'] = (i % 4 == 3)
         if k == 1:
             case['key_change'] = [t for t in ('ecdsa_p384', 'ed25519', 'ecdsa_p256', 'rsa2048') if t != case['acc_key']][i % 3]
@@ -333,7 +354,7 @@ def run(tier):
     probe_part(chk, tier)
     chk.rule = ('identifier sets (name + its wildcard with different challenges in both orders, several names with different challenges, IDN, IPv4/IPv6, '
                 'wildcards alone), 7 account key types, token lengths 1..128, CA-shuffled authorizations and challenge lists, CAs offering a subset of '
-                'types, authorizations served valid/invalid/deactivated/expired/revoked, pending authorizations whose challenges are already processing, two challenge hooks (the second one also a file hook in a quarter of the cases), failing challenge hooks; probe: random keys/tokens through '
+                'types, authorizations served valid/invalid/deactivated/expired/revoked, pending authorizations whose challenges are already processing, unknown challenge types listed before the configured one, a hook that fails without reading its large input file, two challenge hooks (the second one also a file hook in a quarter of the cases), failing challenge hooks; probe: random keys/tokens through '
                 'get_proof; distinct = scenario shapes with hooks or authorizations observed + (key type, challenge) classes of the probe')
     chk.assumptions = ['thumbprint taken from the mock CA account table (computed from the JWK it received)', 'hookrec and mockca share CLOCK_MONOTONIC']
     code = chk.finish()
